@@ -13,7 +13,7 @@ from pyvc.engine import FnSpec, LoopSpec, Obligation, Raise
 from pyvc import ground
 
 PROP = "C18"
-GROUNDABLE = False
+GROUNDABLE = True
 BATTERY = "c18_battery.py"
 DEB = "watchdog/utils/event_debouncer.py"
 PW = "watchdog/utils/process_watcher.py"
